@@ -89,7 +89,7 @@ class Harness:
     expect_fail: list of vk: tags that must FAIL (calibration only)."""
 
     def __init__(self, name, engine="e1", unwind=None, skeletons=None, allow_fail=None,
-                 clause="", expect_fail=(), stubs=False, timeout=None, witness=True, extra_cbmc=(), split=False, tolerant=True):
+                 clause="", expect_fail=(), stubs=False, timeout=None, witness=True, extra_cbmc=(), split=False, tolerant=True, allow_unwind=None):
         self.name = name
         self.engine = engine
         self.unwind = unwind
@@ -101,6 +101,7 @@ class Harness:
         self.timeout = timeout
         self.witness = witness
         self.extra_cbmc = tuple(extra_cbmc)
+        self.allow_unwind = re.compile(allow_unwind) if allow_unwind else None   # unwinding assertions (by name) allowed to fail
         self.tolerant = tolerant    # hunt: compare f32 values with a relative tolerance (rounding-level differences are not violations)
         self.split = split          # e2 only: one SMT query per harness obligation (+ one for all implicit properties)
 
@@ -498,6 +499,8 @@ def run_job(crate, harness, skeleton, jobdir, budget, want_witness=True):
             bad, undet = [], []
             for n, v in st.items():
                 if n in skip or "reachability_check" in n:
+                    continue
+                if ".unwind." in n and harness.allow_unwind and harness.allow_unwind.search(n):
                     continue
                 if v == "FAILURE":
                     bad.append(n)
